@@ -158,6 +158,8 @@ pub(crate) struct NdDev {
     /// `last_read` is recorded only for reads starting in [track_lo, track_hi) (default: everywhere)
     pub track_lo: u64,
     pub track_hi: u64,
+    /// single-fault mode: the device call with this (concrete) index fails (usize::MAX = none)
+    pub fault_at: usize,
 }
 
 impl NdDev {
@@ -185,11 +187,18 @@ impl NdDev {
             small_read_ok: None,
             track_lo: 0,
             track_hi: u64::MAX,
+            fault_at: usize::MAX,
         }
     }
     pub fn faulty() -> Self {
         let mut d = Self::new();
         d.faults = true;
+        d
+    }
+    /// exactly the k-th device call (0-based) fails; k concrete keeps symbolic execution cheap
+    pub fn fault_at(k: usize) -> Self {
+        let mut d = Self::new();
+        d.fault_at = k;
         d
     }
     pub fn read_only() -> Self {
@@ -210,7 +219,7 @@ impl NdDev {
         if self.budget > 0 {
             assert!(self.ncalls <= self.budget, "device-call budget exceeded: the operation does not terminate");
         }
-        if self.faults && kani::any() {
+        if self.ncalls - 1 == self.fault_at || (self.faults && kani::any()) {
             let tag: u8 = kani::any();
             kani::assume(tag != EOF_TAG && tag != WZ_TAG);
             if !self.fault_fired {
@@ -393,4 +402,21 @@ impl TimeProvider for SymTime {
     fn get_current_date_time(&self) -> DateTime {
         self.dt
     }
+}
+
+
+/// Calls `$f(k)` with a CONCRETE k on its own path for every k in 0..32 (k = 32 stands for "no fault"):
+/// exhaustive single-fault enumeration in which every path has a concrete failing call index.
+#[macro_export]
+macro_rules! for_each_fault_index {
+    ($f:expr) => {{
+        let sel: u8 = kani::any();
+        match sel {
+            0 => $f(0), 1 => $f(1), 2 => $f(2), 3 => $f(3), 4 => $f(4), 5 => $f(5), 6 => $f(6), 7 => $f(7),
+            8 => $f(8), 9 => $f(9), 10 => $f(10), 11 => $f(11), 12 => $f(12), 13 => $f(13), 14 => $f(14), 15 => $f(15),
+            16 => $f(16), 17 => $f(17), 18 => $f(18), 19 => $f(19), 20 => $f(20), 21 => $f(21), 22 => $f(22), 23 => $f(23),
+            24 => $f(24), 25 => $f(25), 26 => $f(26), 27 => $f(27), 28 => $f(28), 29 => $f(29), 30 => $f(30), 31 => $f(31),
+            _ => $f(usize::MAX),
+        }
+    }};
 }
